@@ -423,7 +423,7 @@ def new_ltf_plan(**args):
                 stage2 = True # Transition to stage 2 on the NEXT iteration
                 # Calculate alpha for the upcoming stage 2
                 pts_left = Jdes - j
-                if pts_left > 1:
+                if pts_left > 1 and dftlen_crossover > 0:
                     alpha = np.log(Lmin / dftlen_crossover) / (pts_left - 1)
                 dftlen = int(np.round(fs / fres_ideal)) # Use the ideal fres for this step
             elif (freslim * fres_ideal)**0.5 > fresmin:
@@ -454,10 +454,15 @@ def new_ltf_plan(**args):
         
         # The bmin constraint must always be respected
         if fbin < bmin:
-            fres = fi / bmin
-            dftlen = int(fs/fres) # Recalculate L if bmin was enforced
-            fbin = bmin
+            dftlen = int(math.ceil(fs * bmin / fi)) # Recalculate L if bmin was enforced
+            if dftlen > N: dftlen = N
+            if dftlen < Lmin: dftlen = Lmin
             nseg = int(np.round((N - dftlen) / (xov * dftlen) + 1))
+            if nseg == 1:
+                dftlen = N
+            fres = fs / dftlen
+            fbin = fi / fres
+        nseg = min(nseg, N - dftlen + 1)
 
 
         # --- C. Store results and update state for the next iteration ---
